@@ -366,7 +366,7 @@ impl<'s> SnapshotProvider<'s> {
     /// Adds another requirement that matches any version of a package.
     /// If you use "*" as the matcher, it will match any version of the package.
     pub fn add_package_requirement(&mut self, name: NameId, matcher: &str) -> VersionSetId {
-        let id = self.snapshot.version_sets.max() + self.additional_version_sets.len();
+        let id = self.first_additional_version_set_idx() + self.additional_version_sets.len();
         let package = self.package(name);
 
         let matching_candidates = package
@@ -383,6 +383,15 @@ impl<'s> SnapshotProvider<'s> {
         });
 
         VersionSetId::from_usize(id)
+    }
+
+    /// The index of the first version set that is not part of the snapshot.
+    fn first_additional_version_set_idx(&self) -> usize {
+        if self.snapshot.version_sets.is_empty() {
+            0
+        } else {
+            self.snapshot.version_sets.max() + 1
+        }
     }
 
     fn solvable(&self, solvable: SolvableId) -> &Solvable {
@@ -408,7 +417,7 @@ impl<'s> SnapshotProvider<'s> {
 
     fn version_set(&self, version_set: VersionSetId) -> &VersionSet {
         let idx = version_set.to_usize();
-        let max_idx = self.snapshot.version_sets.max();
+        let max_idx = self.first_additional_version_set_idx();
         if idx >= max_idx {
             &self.additional_version_sets[idx - max_idx]
         } else {
